@@ -22,6 +22,8 @@ def run_step(step, pid, tier, seed):
         return _frame_strict(step)
     if step.get("kind") == "gen-scan":
         return _gen_scan(step)
+    if step.get("kind") == "gen-fields":
+        return _gen_fields(step)
     if step.get("kind") == "gen-taglist":
         return _gen_taglist(step)
     return {"undecided": ["unknown step kind %r" % step.get("kind")]}
@@ -190,6 +192,174 @@ def _gen_scan(step):
         res["obligations"] = 1
         res["discharged"] = 1
         res["samples"].append("C03-frame::generated-parsers-have-no-panicking-construct (mechanical scan of %d functions)" % nfn)
+    return res
+
+
+def _gen_fields(step):
+    """C02 / C01 frame of the generated parse / stringify pairs (mechanical, assumption A-GEN made checkable): the cursor functions
+    (U-CUR) are proved to return the value of the token they consume; that every consumed value ENDS UP IN THE MODEL and is WRITTEN
+    FROM IT is a statement about generated code, checked here by a token scan of every generated `fn parse` and its `stringify`:
+      (1) every top-level `let` binding of `parse` (the positional values with their layout records, the location / id values, the
+          `let mut` accumulators of the sub-elements) occurs EXACTLY ONCE in the returned `Ok(Self { .. })` literal, except the
+          end-tag identifier `ident`, which must be compared with `context.element` instead;
+      (2) in every arm `"TAG" => { .. }` of the `match tag` the parsed `newitem` is stored exactly once, into an accumulator of (1),
+          by `acc = Some(newitem)` or `acc.push(newitem)`, and every accumulator other than `a2lcomment` is the target of an arm;
+      (3) every field of the `Self { .. }` literal other than `__block_info` is read as `self.<field>` in `stringify` of the same type.
+    A deviation is reported as UNDECIDED ("frame lost"), never as a violation; the bounded drivers of C01 / C02 supply the input."""
+    from . import rustlex
+    res = {"failures": [], "undecided": [], "bounded": [], "obligations": 0, "discharged": 0, "samples": [],
+           "cmd": "vf.steps gen-fields (token scan of the generated parse / stringify functions in a2lfile/src/specification.rs)",
+           "trusted": ["vf/steps.py gen-fields (rustlex tokens)"], "assumptions": []}
+    pth = os.path.join(vrun.REPO, "a2lfile", "src", "specification.rs")
+    try:
+        text = open(pth, encoding="utf-8").read()
+    except Exception as e:
+        res["undecided"].append("gen-fields: cannot read specification.rs: %r" % e)
+        return res
+    cut = text.find("#[cfg(test)]")
+    sf = rustlex.SourceFile("a2lfile/src/specification.rs", text[:cut] if cut > 0 else text)
+
+    def type_of(it):
+        h = sf.text[it.start:it.body_open] if hasattr(it, "body_open") and it.body_open else ""
+        h = " ".join(h.split())
+        if " for " in h:
+            return h.split(" for ", 1)[1].split("{")[0].split("<")[0].strip()
+        return h.replace("impl", "", 1).split("{")[0].split("<")[0].strip()
+
+    parses, strs = {}, {}
+    for it in sf.top:
+        if it.kind != "impl":
+            continue
+        ty = type_of(it)
+        for ch in sf.children(it):
+            if ch.kind == "fn" and ch.name == "parse":
+                parses[ty] = ch
+            elif ch.kind == "fn" and ch.name == "stringify":
+                strs[ty] = ch
+    bad = []
+    nfn = nlet = narm = nfield = 0
+
+    def top_level_lets(ct):
+        """(names, index) of the `let` statements directly in the fn body (brace depth 1)"""
+        out = []
+        depth = 0
+        for i, t in enumerate(ct):
+            if t.kind == "punct" and t.text in ("{", "(", "["):
+                depth += 1
+            elif t.kind == "punct" and t.text in ("}", ")", "]"):
+                depth -= 1
+            elif depth == 1 and t.kind == "ident" and t.text == "let" and not (i > 0 and ct[i - 1].text in ("if", "while")):
+                j = i + 1
+                names = []
+                if ct[j].text == "(":
+                    e = rustlex.match_close(ct, j)
+                    names = [x.text for x in ct[j + 1:e] if x.kind == "ident" and x.text not in ("mut", "ref")]
+                else:
+                    if ct[j].text == "mut":
+                        j += 1
+                    if ct[j].kind == "ident":
+                        names = [ct[j].text]
+                out.append((names, i, ct[i + 1].text == "mut"))
+        return out
+
+    for ty, ch in sorted(parses.items()):
+        body = sf.text[ch.body_open:ch.end]
+        if "Ok(Self {" not in body and "Ok(Self{" not in body:
+            continue  # hand-written parse (A2ml, IfData): under contract in U-IFD / U-GEN, no generated literal
+        nfn += 1
+        ct = rustlex.code_tokens(rustlex.lex(body))
+        where = "%s::parse @ specification.rs:%d" % (ty, sf.line_of(ch.start))
+        # the returned literal
+        lit = None
+        for i in range(len(ct) - 3):
+            if ct[i].text == "Ok" and ct[i + 1].text == "(" and ct[i + 2].text == "Self" and ct[i + 3].text == "{":
+                lit = (i + 3, rustlex.match_close(ct, i + 3))
+        if lit is None:
+            bad.append("no `Ok(Self { .. })` literal in " + where)
+            continue
+        lit_idents = [x.text for x in ct[lit[0]:lit[1]] if x.kind == "ident"]
+        lets = top_level_lets(ct)
+        accs = set()
+        for names, i, is_mut in lets:
+            for nme in names:
+                if nme == "ident":
+                    if "context.element" not in body.replace(" ", ""):
+                        bad.append("end tag identifier is not compared with context.element in " + where)
+                    continue
+                nlet += 1
+                c = lit_idents.count(nme)
+                flat = "".join(x.text + " " for x in ct)
+                if c == 0 and is_mut and ("while ! %s " % nme) in flat:
+                    continue  # the `done` flag of a sequence loop
+                if c == 0 and nme.startswith("__tmp_required_"):
+                    # a required sub-element: unwrapped once by `let X = if let Some(value) = __tmp_required_X { value } else { .. }`
+                    if flat.count("if let Some ( value ) = %s {" % nme) == 1 and lit_idents.count(nme[len("__tmp_required_"):]) == 1:
+                        if is_mut:
+                            accs.add(nme)
+                        continue
+                if c != 1:
+                    bad.append("binding `%s` occurs %d times in the returned literal of %s" % (nme, c, where))
+                if is_mut:
+                    accs.add(nme)
+        # (2) the arms of `match tag`
+        targets = set()
+        for i, t in enumerate(ct):
+            if t.kind == "str" and i + 2 < len(ct) and ct[i + 1].text == "=" and ct[i + 2].text == ">" and ct[i + 3].text == "{":
+                e = rustlex.match_close(ct, i + 3)
+                arm = ct[i + 3:e]
+                txt = [x.text for x in arm]
+                if "newitem" not in txt:
+                    continue
+                narm += 1
+                stores = []
+                for k in range(len(arm) - 4):
+                    if arm[k].kind == "ident" and arm[k + 1].text == "=" and arm[k + 2].text == "Some" and arm[k + 3].text == "(" and arm[k + 4].text == "newitem" \
+                            and arm[k - 1].text not in (".", "let"):
+                        stores.append(arm[k].text)
+                    if arm[k].kind == "ident" and arm[k + 1].text == "." and arm[k + 2].text == "push" and arm[k + 3].text == "(" and arm[k + 4].text == "newitem":
+                        stores.append(arm[k].text)
+                if len(stores) != 1 or stores[0] not in accs:
+                    bad.append("arm %s of %s stores `newitem` %d time(s) (%s)" % (t.text, where, len(stores), ", ".join(stores)))
+                else:
+                    targets.add(stores[0])
+        for a in sorted(accs - targets - {"a2lcomment"}):
+            # accumulators of non-tagged parts (sequences `while !done`) are filled outside `match tag`: they must be pushed to somewhere
+            if (a + ".push(") not in body.replace(" ", "") and (a + "=Some(") not in body.replace(" ", ""):
+                bad.append("accumulator `%s` of %s is never filled" % (a, where))
+        # (3) stringify reads every field of the literal
+        fields = []
+        depth = 0
+        seg = ct[lit[0] + 1:lit[1]]
+        k = 0
+        while k < len(seg):
+            x = seg[k]
+            if x.kind == "punct" and x.text in ("{", "(", "["):
+                depth += 1
+            elif x.kind == "punct" and x.text in ("}", ")", "]"):
+                depth -= 1
+            elif depth == 0 and x.kind == "ident" and (k == 0 or seg[k - 1].text == ","):
+                fields.append(x.text)
+            k += 1
+        st = strs.get(ty)
+        if st is None:
+            bad.append("no stringify for " + ty)
+            continue
+        sbody = sf.text[st.body_open:st.end].replace(" ", "").replace("\n", "")
+        for f in fields:
+            if f == "__block_info":
+                continue
+            nfield += 1
+            if ("self." + f) not in sbody:
+                bad.append("field `%s` of %s is not read by its stringify" % (f, ty))
+    res["samples"].append("gen-fields: %d generated parse functions, %d top-level bindings, %d sub-element arms, %d fields checked against stringify" % (nfn, nlet, narm, nfield))
+    if nfn < 100:
+        res["undecided"].append("gen-fields: only %d generated parse functions found (layout of specification.rs changed?)" % nfn)
+    elif bad:
+        res["undecided"].append("frame lost: generated parse / stringify pairs deviate from 'every consumed value is stored once and written from the model': %s" % "; ".join(bad[:6]))
+    else:
+        res["obligations"] = 1
+        res["discharged"] = 1
+        res["samples"].append("C02-frame::generated-parsers-store-every-value-once-and-stringify-reads-every-field (mechanical scan of %d functions)" % nfn)
     return res
 
 
